@@ -2,3 +2,4 @@
 -- package level (Props/C04/Package.lean: the same values inside a PARAMS package with their format)
 import Dblib.Props.C04.Values
 import Dblib.Props.C04.Package
+import Dblib.Props.C05.ClockReading  -- a time is its clock reading (c05_clock_reading_only)
